@@ -209,7 +209,7 @@ class WebSocketFrame(object):
 
         if length == 126:
             length, = struct.unpack("!H", socket.recv(2))
-        if length == 127:
+        elif length == 127:
             length, = struct.unpack("!Q", socket.recv(8))
 
         self.payload_length = length
@@ -253,7 +253,7 @@ class WebSocketFrame(object):
         hdr = []
 
         if self.payload_length > 125:
-            if self.payload_length < 0XFFFF:
+            if self.payload_length <= 0XFFFF:
                 hdr.append(struct.pack("!H", self.payload_length))
             else:
                 hdr.append(struct.pack("!Q", self.payload_length))
@@ -271,7 +271,10 @@ class WebSocketFrame(object):
 
     def writeData(self, socket):
 
-        socket.sendall(self.payload)
+        payload = self.payload
+        if self.flags.mask:
+            payload = bytes(b ^ self.masking_key[i%4] for i, b in enumerate(payload))
+        socket.sendall(payload)
 
     def __repr__(self):
         opcode = self.flags.opcode.name
